@@ -134,6 +134,17 @@ Definition equals (v w : value) : bool :=
     end
   end.
 
+(* RawEqual (comp.go:7) with equalIntAndFloat (comp.go:86: nf := int64(f); float64(nf) == f && nf == n,
+   i.e. f is integral, in the int64 range, and equal to n): the run-time meaning of rawequal and of ==
+   when no __eq metamethod is involved *)
+Definition raw_equal_go (x y : value) : bool :=
+  if equals x y then true
+  else match x, y with
+       | VInt n, VFlt f => match float_to_int f with Some z => Z.eqb z n | None => false end
+       | VFlt f, VInt n => match float_to_int f with Some z => Z.eqb z n | None => false end
+       | _, _ => false
+       end.
+
 (* structural identity of model values (used to look keys up in the reported hash table) *)
 Definition veqb (v w : value) : bool :=
   match v, w with
